@@ -38,13 +38,14 @@ RULE += (' Also: after a refused close (read pending) the idle handle is closed 
 RULE += (' Also: a scope context created over a live handle and entered after the handle was closed; the grouper idiom (one handle at every position).')
 RULE += (" Also: a handle closed while the owner's own read of the underlying iterator is in flight; empty slices that still skip (islice 2,2 / 3,1 / 2,0,3) on shared handles.")
 RULE += (' Also: the underlying iterator fails once through a handle, which is then closed and must be silent.')
+RULE += (' Also: an exception thrown into a CLOSED handle reaches nothing (class sources with athrow but no asend included).')
 ASSUMPTIONS = ["laziness of the tools themselves is C05's concern; here the stdlib twin predicts how many items a tool takes",
-               "athrow is not part of the property's operation list and is not generated"]
+               "athrow on a LIVE handle is not part of the property's operation list and is not generated; athrow on a closed handle is"]
 EXHAUSTIVE_SUBSPACES = 'all histories of length <= 3 (thorough: 4) over a 13-operation alphabet'
 EXHAUSTIVE = {"quick": False, "thorough": False}
 N_RANDOM = {"quick": 30000, "thorough": 1500000}
 FLAVS = ["async_gen", "async_class", "async_class_bare", "async_class_full", "async_class_asend", "async_class_proxy",
-         "async_class_future", "async_class_delegating", "async_class_bare_full"]
+         "async_class_future", "async_class_delegating", "async_class_bare_full", "async_class_athrow"]
 
 STOP = "STOP"
 
@@ -63,6 +64,10 @@ def _uid(x):
     if isinstance(x, (tuple, list)):
         return tuple(_uid(y) for y in x)
     return x
+
+
+class _Thrown(Exception):
+    pass
 
 
 def _failing(after, impl):
@@ -268,8 +273,10 @@ def gen_history(rng, maxops=12):
             ops.append(["aclose_b", h])
         elif r < 0.46:
             ops.append(["aclose_iter", h])
-        elif r < 0.52:
+        elif r < 0.50:
             ops.append(["asend", h])
+        elif r < 0.52:
+            ops.append(["athrow_closed", h])
         elif r < 0.62:
             ops.append(["reborrow", rng.choice([-1, h])])
             nh += 1
@@ -295,7 +302,7 @@ def cases(tier, seed, shard, nshards):
     alphabet = [["next_b", 0], ["next_u"], ["aclose_b", 0], ["aclose_iter", 0], ["asend", 0], ["reborrow", 0], ["next_b", 1],
                 ["tool", "islice2", 0, 1, "close"], ["tool", "takewhile", 0, 1, "abandon"], ["tool", "zip", 0, 0, "close"],
                 ["tool", "list", 0, 0, "close"], ["tool", "chain", 0, 0, "close"], ["tool", "tee0", 1, 1, "close"],
-                ["scope", 0, 1], ["asend", 1], ["next_b", 2], ["next_f", 0]]
+                ["scope", 0, 1], ["asend", 1], ["next_b", 2], ["next_f", 0], ["athrow_closed", 0]]
     maxlen = 3 if tier == "quick" else 4
     for n in range(1, maxlen + 1):
         for hist in itertools.product(alphabet, repeat=n):
@@ -470,6 +477,24 @@ def run_history(case, stats, scoped=None):
                     if got != want:
                         fail("borrow/handle-sequence", f"op {n} {op}: handle gave {got}, shared iterator gives {want}")
                         return
+            elif kind == "athrow_closed":
+                # an exception thrown into a handle that was closed: it reaches nothing - the underlying iterator is
+                # neither advanced nor told (throwing into a LIVE handle is forwarded and not judged here)
+                h = op[1] if op[1] < len(handles) else 0
+                if h not in self_closed or not hasattr(handles[h], "athrow"):
+                    continue
+                pos_before = st.pos
+                try:
+                    got = _uid(await handles[h].athrow(_Thrown("thrown into a closed handle")))
+                except (_Thrown, StopAsyncIteration):
+                    got = STOP
+                if got is None:
+                    got = STOP  # (a finished async generator answers a throw with nothing at all)
+                if got != STOP or st.pos != pos_before:
+                    fail("borrow/closed-handle-still-yields", f"op {n} {op}: athrow on the closed handle gave {got} "
+                                                              f"(underlying advanced: {st.pos != pos_before})")
+                    return
+                counters["throws_into_closed_handles"] += 1
             elif kind in ("aclose_b", "aclose_iter"):
                 h = op[1] if op[1] < len(handles) else 0
                 target = handles[h] if kind == "aclose_b" else A.iter(handles[h])
